@@ -57,22 +57,45 @@ func c08(w *World) {
 	// peer keep-alive so that the inbound timer never interferes: a Heartbeat at drawn
 	// intervals below N (inbound traffic must not influence the outbound timer)
 	stop := false
+	var silentUntil time.Time
+	lastKeep := time.Now() // the Logon was the last inbound message
 	simrt.GoHarness("keepalive", func() {
 		for !stop {
 			simrt.Sleep(N*3/10 + time.Duration(w.W.Draw(int(N*6/10/time.Millisecond)))*time.Millisecond)
 			if stop || sc.P.EOF {
 				return
 			}
+			if time.Now().Before(silentUntil) {
+				continue // the peer is silent for a while: the library's TestRequest goes unanswered
+			}
 			sc.P.Send(sc.Msg("0"))
+			lastKeep = time.Now()
 		}
 	})
+	tol := n / 20
+	if tol < 1 {
+		tol = 1
+	}
+	T := time.Duration(n+tol) * time.Second
 	sendApp := func(i int) {
 		_ = s.Send(fixgen.NewMarketDataRequest().SetMDReqID("a" + itoa(i)).SetSubscriptionRequestType("1").SetMarketDepth(1))
 	}
 	actions := 3 + w.W.Draw(20)
 	for i := 0; i < actions && !sc.P.EOF; i++ {
 		d := lastOut().Add(N) // the running deadline
-		switch w.W.Pick(3, 3, 3, 3, 2, 2, 2) {
+		switch w.W.Pick(3, 3, 3, 3, 2, 2, 2, 3) {
+		case 7:
+			// the peer goes silent long enough for the library's TestRequest to be outstanding, and comes
+			// back before the disconnect: the session is still logged on and must keep transmitting
+			// (measured from the last inbound message: TestRequest in [T, T+T/10], disconnect not before 2T)
+			d0 := T + T/10 + time.Millisecond + time.Duration(w.W.Draw(int((T-T/10-20*time.Millisecond)/time.Millisecond)))*time.Millisecond
+			silentUntil = lastKeep.Add(d0)
+			sleepUntil(silentUntil)
+			if !sc.P.EOF {
+				sc.P.Send(sc.Msg("0", F(TagTestReqID, "1")))
+				lastKeep = time.Now()
+			}
+			w.Probe("peer_silent_testrequest_outstanding")
 		case 0:
 			sleepUntil(d.Add(-slack - time.Millisecond))
 			sendApp(i)
